@@ -1987,3 +1987,121 @@ Proof.
   split; [rewrite EQ; exact M|]. exists s. split; [reflexivity|]. split; [reflexivity|].
   rewrite LEN, map_length. reflexivity.
 Qed.
+
+(* ================================================================ mix_and_split with a MultiStream top outlet *)
+
+Lemma row_of_lt phases p : (p < 4)%nat -> (row_of phases p < 4)%nat.
+Proof.
+  intros H. unfold row_of. destruct (nthb phases p); [exact H|].
+  destruct p as [|[|[|[|p]]]]; simpl; lia.
+Qed.
+
+Lemma mix_rows_spec n phases inl acc :
+  length acc = 4%nat -> (forall r, In r acc -> length r = n) ->
+  (forall i, In i inl -> (fst i < 4)%nat /\ length (snd i) = n) ->
+  length (mix_rows phases inl acc) = 4%nat /\
+  (forall r, In r (mix_rows phases inl acc) -> length r = n) /\
+  forall j, colsum (mix_rows phases inl acc) j == colsum acc j + colsum (map snd inl) j.
+Proof.
+  revert acc; induction inl as [|[p v] inl IH]; intros acc L4 LR HI; simpl.
+  - split; [exact L4|]. split; [exact LR|]. intros j; simpl; lra.
+  - destruct (HI (p, v) (or_introl eq_refl)) as [P4 Lv]. simpl in P4, Lv.
+    set (r := row_of phases p).
+    assert (R4 : (r < 4)%nat) by (apply row_of_lt; exact P4).
+    assert (Lr : length (nthv acc r) = n).
+    { apply LR. unfold nthv. apply nth_In. exact (eq_ind_r (fun k => (r < k)%nat) R4 L4). }
+    destruct (IH (upd acc r (vadd (nthv acc r) v))) as (A & B & C).
+    + rewrite upd_length; exact L4.
+    + intros x Hx. apply In_upd in Hx. destruct Hx as [->|Hx]; [|apply LR; exact Hx].
+      rewrite vadd_length; congruence.
+    + intros i Hi. apply HI. right; exact Hi.
+    + split; [exact A|]. split; [exact B|]. intros j. rewrite C.
+      assert (RL : (r < length acc)%nat) by exact (eq_ind_r (fun k => (r < k)%nat) R4 L4).
+      pose proof (colsum_upd acc r (vadd (nthv acc r) v) j RL) as U.
+      pose proof (nthq_vadd (nthv acc r) v j ltac:(congruence)) as W.
+      unfold nthv, vec in *. rewrite U, W. lra.
+Qed.
+
+Lemma empty_inlet_zero (v : vec) j : existsb (fun x => negb (qzerob x)) v = false -> nthq v j == 0.
+Proof.
+  revert j; induction v as [|x v IH]; intros j H; simpl in H.
+  - rewrite nthq_nil; lra.
+  - apply orb_false_iff in H. destruct H as [H1 H2]. apply negb_false_iff in H1.
+    destruct j as [|j]; [rewrite nthq_cons0; apply qzerob_true; exact H1 | rewrite nthq_consS; apply IH; exact H2].
+Qed.
+
+Lemma colsum_filter_nonempty (inl : list (nat * vec)) j :
+  colsum (map snd (filter inlet_nonempty inl)) j == colsum (map snd inl) j.
+Proof.
+  induction inl as [|[p v] inl IH]; simpl; [lra|].
+  unfold inlet_nonempty at 1. simpl. destruct (existsb (fun x => negb (qzerob x)) v) eqn:E; simpl.
+  - rewrite IH. lra.
+  - rewrite IH. rewrite (empty_inlet_zero v j E). lra.
+Qed.
+
+Lemma colsum_zero4 n j : colsum (repeat (vzero n) 4) j == 0.
+Proof. simpl. rewrite !nthq_vzero. lra. Qed.
+
+Lemma colsum_split_rows n (rows : list vec) split j :
+  (forall r, In r rows -> length r = n) -> length split = n ->
+  colsum (map (fun r => fst (split_to r split)) rows) j == nthq split j * colsum rows j /\
+  colsum (map (fun r => fst (split_to r split)) rows) j + colsum (map (fun r => snd (split_to r split)) rows) j
+    == colsum rows j.
+Proof.
+  intros LR Ls. unfold split_to; cbn [fst snd]. induction rows as [|r rows IH]; simpl; [split; lra|].
+  destruct IH as [A B]; [intros x Hx; apply LR; right; exact Hx|].
+  assert (Lr : length r = n) by (apply LR; left; reflexivity).
+  rewrite nthq_vsub by (rewrite vmul_length; lia). rewrite nthq_vmul by lia.
+  split; [rewrite A; ring|].
+  set (t := nthq r j * nthq split j) in *. lra.
+Qed.
+
+(* all phases together, per chemical: top + bottom = sum of ALL inlets (whatever their phases and whether or not
+   the top owned those phases before), and the top holds split * mixed; what the outlets held before is gone *)
+Lemma mix_split_multi_lemma n present inl split :
+  (forall i, In i inl -> (fst i < 4)%nat /\ length (snd i) = n) -> length split = n ->
+  let x := mix_and_split_multi n present inl split in
+  forall j, colsum (x_top x) j + colsum (x_bot x) j == colsum (map snd inl) j /\
+            colsum (x_top x) j == nthq split j * colsum (map snd inl) j.
+Proof.
+  intros HI Ls x j. unfold x, mix_and_split_multi. cbn [x_top x_bot].
+  destruct (mix_rows_spec n (grow_phases present (filter inlet_nonempty inl)) (filter inlet_nonempty inl)
+              (repeat (vzero n) 4)) as (_ & LR & S).
+  - reflexivity.
+  - intros r Hr. apply repeat_spec in Hr. subst r. apply vzero_length.
+  - intros i Hi. apply HI. apply filter_In in Hi. apply Hi.
+  - destruct (colsum_split_rows n _ split j LR Ls) as [A B].
+    pose proof (S j) as Sj. rewrite colsum_zero4, colsum_filter_nonempty in Sj.
+    split.
+    + rewrite B. transitivity (0 + colsum (map snd inl) j); [exact Sj | ring].
+    + rewrite A. apply Qmult_comp; [reflexivity|]. transitivity (0 + colsum (map snd inl) j); [exact Sj | ring].
+Qed.
+
+(* the phase set only grows, and every non-empty inlet finds a row: its own phase or its other-case twin *)
+Lemma nth_map_all_phases (f : nat -> bool) p : (p < 4)%nat -> nthb (map f all_phases) p = f p.
+Proof. intros H. destruct p as [|[|[|[|p]]]]; try reflexivity; lia. Qed.
+
+Lemma grow_phases_lemma present inl p :
+  (p < 4)%nat -> length present = 4%nat ->
+  (nthb present p = true -> nthb (grow_phases present inl) p = true) /\
+  (forall v, In (p, v) inl -> nthb (grow_phases present inl) (row_of (grow_phases present inl) p) = true).
+Proof.
+  intros P4 L4. unfold grow_phases.
+  destruct (existsb (fun i => negb (in_indexer present (fst i))) inl) eqn:E.
+  - split.
+    + intros H. rewrite nth_map_all_phases by exact P4. rewrite H. reflexivity.
+    + intros v Hin. unfold row_of.
+      assert (G : nthb (map (fun q => nthb present q || existsb (fun i => Nat.eqb (fst i) q) inl) all_phases) p = true).
+      { rewrite nth_map_all_phases by exact P4. apply orb_true_iff. right.
+        apply existsb_exists. exists (p, v). split; [exact Hin|apply Nat.eqb_refl]. }
+      rewrite G. exact G.
+  - split; [auto|]. intros v Hin.
+    assert (I : in_indexer present p = true).
+    { destruct (in_indexer present p) eqn:I; auto. exfalso.
+      assert (X : existsb (fun i => negb (in_indexer present (fst i))) inl = true).
+      { apply existsb_exists. exists (p, v). split; [exact Hin|simpl; rewrite I; reflexivity]. }
+      congruence. }
+    unfold row_of. destruct (nthb present p) eqn:N; [exact N|].
+    unfold in_indexer in I. rewrite N in I. simpl in I.
+    destruct (swap_case p) as [q|]; [exact I|discriminate].
+Qed.
